@@ -40,10 +40,28 @@ def true_roots(coefs):
     return [((lo + hi) / 2) for lo, hi in O.isolate_roots(p, width=Fr(1, 2 ** 200), rel=Fr(1, 2 ** 40))]
 
 
+def root_scale(coefs):
+    """Fujiwara-type scale of the roots (real and complex) from the coefficients: max_k |c_k / c_n|^(1/(n-k)), as a Fraction (coarse: via floats)"""
+    cs = list(coefs)
+    while cs and cs[-1] == 0.0:
+        cs.pop()
+    n = len(cs) - 1
+    if n < 1:
+        return Fr(0)
+    best = 0.0
+    for k in range(n):
+        if cs[k] != 0.0:
+            try:
+                best = max(best, abs(cs[k] / cs[n]) ** (1.0 / (n - k)))
+            except OverflowError:
+                return Fr(0)
+    return Fr(best) if math.isfinite(best) else Fr(0)
+
+
 def judge_roots(coefs, out, deg):
     """the property's own reading of `out` (list of floats) for polynomial `coefs` (lowest first).
     A returned value is accepted as a root if it is backward stable (residual within 4096 eps of the term sum, i.e. the
-    polynomial vanishes to rounding there) OR forward accurate (within 1e-7 relative / 1e-12 of the root scale of a true root)."""
+    polynomial vanishes to rounding there) OR forward accurate (|x - r| <= 1e-7 |r| + max(1e-12 nearest other real root, 1e-10 scale of all roots))."""
     if len(out) > deg:
         return f'{len(out)} values returned for degree {deg}'
     p = O.ptrim(exact_poly(coefs))
@@ -58,7 +76,14 @@ def judge_roots(coefs, out, deg):
             return f'non-finite value {x!r} returned for finite coefficients'
         def tol(r):
             others = [abs(s) for s in roots if s != r and s != 0]
-            return abs(r) / 10 ** 7 + (min(others) if others else max(abs(r), Fr(1))) / 10 ** 12
+            floor0 = Fr(0)
+            if coefs[0] == 0.0 and abs(r) < Fr(1, 10 ** 30):
+                # an exact root at 0 (c0 == 0): relative accuracy means nothing; allow 1e-10 of the scale of the other roots (complex ones included)
+                rest = list(coefs[1:])
+                while len(rest) > 2 and abs(rest[-1]) < 1e-6 * max(abs(c) for c in rest):
+                    rest.pop()           # a negligible leading coefficient: the roots are those of the lower-degree polynomial
+                floor0 = root_scale(rest) / 10 ** 10
+            return abs(r) / 10 ** 7 + max((min(others) if others else max(abs(r), Fr(1))) / 10 ** 12, floor0)
         if not any(abs(Fr(x) - r) <= tol(r) for r in roots):
             return f'returned value {x!r} is not a root (neither backward stable nor within 1e-7 of a true root {[float(r) for r in roots]})'
     # multiple roots are not "separated from the others"
